@@ -26,8 +26,6 @@ impl std::str::FromStr for Authority {
     #[verifier::external_body]
     fn from_str(s: &str) -> (r: Result<Authority, InvalidUri>) { unimplemented!() }
 }
-#[verifier::external_body]
-pub struct InvalidUri { _p: () }
 pub uninterp spec fn parse_result<F>(s: Seq<char>) -> Option<F>;
 pub assume_specification<F: std::str::FromStr> [str::parse::<F>] (s: &str) -> (r: Result<F, <F as std::str::FromStr>::Err>)
     ensures
